@@ -4,9 +4,9 @@ The list is committed; this script only documents how it was produced."""
 import itertools, os
 out = []
 def inst(s, g, l, nr, nw, bar, deps, newr, neww):
-    dn = {'None': '0', 'One': '1', 'Two': '2', 'TwoEqual': '2e', 'ThreeAba': '3aba'}[deps]
+    dn = {'None': '0', 'One': '1', 'Two': '2', 'TwoEqual': '2e', 'ThreeAba': '3aba', 'FiveSame': '5s'}[deps]
     name = f"step_s{s}g{g}l{l}_r{nr}w{nw}_b{bar}_d{dn}_n{newr}{neww}"
-    unw = max(s, g, l, nr + nw, newr, neww, 2, (s * g * l) if deps != 'None' else 0) + 3     # the id permutation loops over all n slots
+    unw = max(s, g, l, nr + nw, newr, neww, 2, (s * g * l) if deps != 'None' else 0, 5 if deps == 'FiveSame' else 0) + 3     # the id permutation loops over all n slots
     out.append(f"    {name} : {s}, {g}, {l}, {nr}, {nw}, {bar}, Deps::{deps}, {newr}, {neww}, {unw}")
 shapes_q = [(1,1,1),(1,2,1),(2,1,1),(2,2,1)]
 shapes_t = [(1,2,2),(1,3,1),(3,1,1),(2,2,2),(1,1,3),(1,1,4),(1,2,4),(2,1,2),(3,2,1)]
@@ -31,6 +31,10 @@ inst(1,1,1,1,1,0,'None',3,1)
 inst(1,2,1,2,1,0,'None',1,3)
 inst(1,1,1,3,1,0,'None',1,1)
 inst(1,1,1,1,3,0,'None',1,1)
+# five entries in the dependency list (beyond its inline capacity of 4; seed C18-x)
+inst(1,1,1,1,1,0,'FiveSame',1,1)
+inst(1,2,1,1,1,0,'FiveSame',1,1)
+inst(2,1,1,1,1,1,'FiveSame',1,1)
 seen=set(); uniq=[]
 for o in out:
     n=o.split(':')[0].strip()
